@@ -28,6 +28,7 @@ FAMILIES = {
     "tripwire": {"src": "tripwire.cpp"},
     "deferred": {"src": "deferred.cpp"},
     "c14": {"src": "c14.cpp"},
+    "containers": {"src": "containers.cpp"},
 }
 
 EXPLORATION_NOTE = ("Trusted base: the vrt runtime's model of std::mutex/timed_mutex/shared_mutex/shared_timed_mutex/condition_variable/atomic "
@@ -102,6 +103,37 @@ PROPS = {
                 "interval reasoning (abstaining when a controller call was in flight); lost wake-ups appear as deadlock. Exploration only.",
         "assumptions": ["single controller (racing activate calls are not generated)", "untimed waits are generated only when the controller's final state releases them"],
         "stages": [{"family": "prims", "flavour": "plain", "target": "C11", "cases": (800000, 10000000), "maxsec": (40, 400)}],
+    },
+    "C16": {
+        "level": "exploration",
+        "technique": "model-based property testing: sequential command sequences on both classes against a per-object destruction ledger, and concurrent adders/droppers/destroyers with generated lock time-outs; oracle = destroyed exactly once, never while owned, callback once before reaping, no modelled mutex held in callback/destructor, re-entry without self-deadlock, size accounting",
+        "design_ref": "DESIGN.md §5 C16",
+        "text": "Generated add / shared add / duplicate add / drop-owner / destroyObjects / destroyObjects(delay) / size sequences run on DelayedDestructor and DelayedDestructorSingleThread with optional callbacks; "
+                "element destructors and callbacks re-enter the container (size, add, destroyObjects). The modelled timed_mutex flags any callback or destructor under the lock and any self-deadlock. Exploration only.",
+        "assumptions": ["re-entry is not generated while the container itself is being destroyed; weak_ptr resurrection is out of scope", "a missing lock around the std::vector is invisible to the fiber runtime (no scheduling point inside): that class of change is the real-thread/TSan stage's job"],
+        "stages": [{"family": "containers", "flavour": "plain", "target": "C16s", "cases": (300000, 4000000), "maxsec": (30, 300)},
+                   {"family": "containers", "flavour": "plain", "target": "C16", "cases": (400000, 6000000), "maxsec": (40, 400)}],
+    },
+    "C17": {
+        "level": "exploration",
+        "technique": "model-based property testing under AddressSanitizer+UBSan: sequential call sequences against a name->(object,tags) map model with nondeterministic predicate removal, and linearizability search (WGL) on concurrent histories; predicates contain scheduling points",
+        "design_ref": "DESIGN.md §5 C17",
+        "text": "Generated add / addType / copy / remove(name) / remove(predicate) / find / findObject(pred[,type]) / checkObjectType / getObjects / empty sequences are checked call by call against a map model in an "
+                "ASan+UBSan build (memory safety of every sequence), and generated 3-fiber histories plus a final complete observation are searched for a linearization. Exploration only.",
+        "assumptions": ["addType is only generated on names that are present and never removed (the property does not specify orphan tags)", "tags compared as sets over {0,1,2}"],
+        "stages": [{"family": "containers", "flavour": "asan", "target": "C17s", "cases": (60000, 1000000), "maxsec": (40, 400)},
+                   {"family": "containers", "flavour": "plain", "target": "C17s", "cases": (300000, 3000000), "maxsec": (30, 300)},
+                   {"family": "containers", "flavour": "plain", "target": "C17", "cases": (300000, 4000000), "maxsec": (40, 400)}],
+    },
+    "C18": {
+        "level": "exploration",
+        "technique": "model-based property testing: sequential sequences against a per-key life-cycle model, linearizability search on concurrent histories of setters/fulfillers/consumers/queries, destruction with pending futures; real std::promise/future objects inspected without blocking",
+        "design_ref": "DESIGN.md §5 C18",
+        "text": "Generated getFuture / setDelayedValue (copy and move, int and string keys) / fulfillAllPromises / finishedWithValue / isRecognized / isCompleted / consume sequences for X in {int, string}; "
+                "every future must become ready exactly once with the value the life-cycle model predicts (first set, else fulfil value, else X{} at destruction); any std::future_error is a violation. Exploration only.",
+        "assumptions": ["each key is requested at most once (as the property states)", "consumers poll futures (wait_for(0)) instead of blocking the single OS thread"],
+        "stages": [{"family": "containers", "flavour": "plain", "target": "C18s", "cases": (300000, 4000000), "maxsec": (30, 300)},
+                   {"family": "containers", "flavour": "plain", "target": "C18", "cases": (300000, 4000000), "maxsec": (40, 400)}],
     },
     "C19": {
         "level": "exploration",
